@@ -40,6 +40,8 @@ type Case struct {
 	// Route[i] is the storage of bucket i: 0 = not in the map (default storage), 1 = A, 2 = B.
 	Route []int     `json:"route"`
 	Ops   []prog.Op `json:"ops"`
+	// Race: instead of a program, one cross-storage copy with a writer on the source (c24_race_test.go).
+	Race *Race `json:"race,omitempty"`
 }
 
 var names = run.Names{Buckets: []string{"bucket-a", "bucket.b", "bucket-c", "bucket-d"}, Keys: []string{"a", "é %_/b"}}
@@ -55,6 +57,10 @@ const (
 
 func genCase(t *rapid.T, env *ev.Env) Case {
 	var c Case
+	if rapid.IntRange(0, 5).Draw(t, "race") == 3 {
+		c.Race = genRace(t)
+		return c
+	}
 	for i := range c.Stacks {
 		c.Stacks[i] = rapid.SampledFrom([]string{"P1", "P2"}).Draw(t, "stack")
 	}
@@ -252,6 +258,9 @@ func bucketNames(bs []storage.Bucket) []string {
 // ---- run -------------------------------------------------------------------------------------
 
 func runCase(env *ev.Env, c Case) (o ev.Outcome) {
+	if c.Race != nil {
+		return runRace(env, c)
+	}
 	dir := env.TempDir()
 	defer os.RemoveAll(dir)
 	ctx := context.Background()
